@@ -255,6 +255,14 @@ def handleLine (st : State) (line : String) : State × String :=
       let m := p.sanitize b
       (st, verdict (m == impl) (hexField m) (if m == impl then [] else ["C13", "C16"]) [])
     | _, _, _ => (st, if impl == "PANIC" then "ok orc=C13,C14,C16" else "bad-after")
+  | ["indep", pid, inp, before, after] =>
+    -- a finished policy sanitised `inp` before and after *other* policies were built and extended:
+    -- policies are values, the two results must be the same (and the model's)
+    match getPolicy st pid, unhexField inp with
+    | some p, some b =>
+      let m := hexField (p.sanitize b)
+      (st, verdict (m == before) m (if before == after then [] else ["C13", "C17"]) [])
+    | _, _ => (st, "bad-indep")
   | ["pfault", pid, inp, k, errf, calls, acc, full] =>
     -- a destination whose failing Write accepts part of the data
     match getPolicy st pid, unhexField inp, k.toNat?, boolField errf, calls.toNat?, unhexField acc, unhexField full with
